@@ -2710,6 +2710,9 @@ def oracle_signatures(ctx, n):
     for i, (params, cp, ck) in enumerate(cases):
         slot = slots[i % len(slots)]
         want = sig_native(params, cp, ck)
+        if want == ("exc", "SyntaxError"):
+            ctx.branch("gen:signature-invalid")
+            continue
         got = sig_template(slot, params, cp, ck)
         if got[0] == "skip":
             continue
@@ -2748,6 +2751,7 @@ def oracle_signatures(ctx, n):
         reported[key] = True
         ctx.violation("signature-binds-different-values",
                       {"input": "def zz(%s) called as zz(%s)" % (sig_text(params), call_text(cp, ck)), "slot": slot,
-                       "params": params, "call_pos": cp, "call_kw": [list(kv) for kv in ck], "kinds": "+".join(kinds)},
+                       "params": params, "call_pos": cp, "call_kw": [list(kv) for kv in ck], "kinds": "+".join(kinds),
+                       "bare_star": "bare" in kinds},
                       "template gives %r, the native function gives %r" % (sig_template(slot, params, cp, ck), sig_native(params, cp, ck)),
                       "oracle.signatures")
